@@ -302,7 +302,9 @@ fn write_server_addresses(writer: &mut impl io::Write, server_addresses: &[Optio
 fn read_server_addresses(src: &mut impl io::Read) -> Result<[Option<SocketAddr>; 32], io::Error> {
     let mut server_addresses = [None; 32];
     let num_server_addresses = read_u32(src)? as usize;
-    for server_address in server_addresses.iter_mut().take(num_server_addresses) {
+    let mut num_read = 0;
+    for _ in 0..num_server_addresses.min(server_addresses.len()) {
+        let server_address = &mut server_addresses[num_read];
         let host_type = read_u8(src)?;
         match host_type {
             NETCODE_ADDRESS_IPV4 => {
@@ -311,6 +313,7 @@ fn read_server_addresses(src: &mut impl io::Read) -> Result<[Option<SocketAddr>;
                 let port = read_u16(src)?;
                 let addr = SocketAddr::new(IpAddr::V4(Ipv4Addr::from(ip)), port);
                 *server_address = Some(addr);
+                num_read += 1;
             }
             NETCODE_ADDRESS_IPV6 => {
                 let mut ip = [0u8; 16];
@@ -318,13 +321,14 @@ fn read_server_addresses(src: &mut impl io::Read) -> Result<[Option<SocketAddr>;
                 let port = read_u16(src)?;
                 let addr = SocketAddr::new(IpAddr::V6(Ipv6Addr::from(ip)), port);
                 *server_address = Some(addr);
+                num_read += 1;
             }
             NETCODE_ADDRESS_NONE => {} // skip
             _ => return Err(io::Error::new(io::ErrorKind::InvalidData, "Unknown ip address type")),
         }
     }
 
-    if server_addresses.is_empty() {
+    if num_read == 0 {
         return Err(io::Error::new(
             io::ErrorKind::InvalidData,
             "ConnectToken does not have a server address",
